@@ -315,8 +315,13 @@ def batch(prop: str, tier: str, verif_seed: int, n_runs: int | None = None,
         "wall_s": round(wall, 2),
         "violations": len(reported),
     }
-    os.makedirs(os.path.join(VERIF, "evidence"), exist_ok=True)
-    with open(os.path.join(VERIF, "evidence", f"{prop}.json"), "w") as f:
+    # evidence describes /repo's working tree only; runs against a scratch copy
+    # of the library (LABSIM_REPO, sensitivity) leave it alone
+    evdir = os.path.join(VERIF, "evidence") if env.REPO == "/repo" else \
+        os.path.join("/tmp", "labsim-scratch-evidence")
+    os.makedirs(evdir, exist_ok=True)
+    ev["coverage"]["library_under_test"] = env.REPO
+    with open(os.path.join(evdir, f"{prop}.json"), "w") as f:
         json.dump(ev, f, indent=1, default=str)
     if not quiet:
         print(f"runs={len(recs)} steps={steps} wall={wall:.1f}s "
